@@ -116,6 +116,13 @@ Fixpoint add (t : trie) (d : key) {struct t} : option trie :=
       end
   end.
 
+(* end of node.remove: "at this point, we might end up with a single leaf child. collapse that." *)
+Definition collapse (cs : list (N * trie)) : trie :=
+  match cs with
+  | [(i, Leaf s)] => Leaf (i :: s)
+  | _ => Node cs
+  end.
+
 (* node.remove; called on non-leaf nodes only; assumption: the element is present *)
 Fixpoint remove (t : trie) (k : key) {struct t} : option trie :=
   match t with
@@ -133,8 +140,7 @@ Fixpoint remove (t : trie) (k : key) {struct t} : option trie :=
                                           end
                               end) b cs with
           | None => None
-          | Some [(i, Leaf s)] => Some (Leaf (i :: s))                  (* single leaf child: collapse *)
-          | Some cs' => Some (Node cs')
+          | Some cs' => Some (collapse cs')
           end
       end
   end.
